@@ -25,6 +25,8 @@ TEMPLATES3 = [
     [["c1ccccc1", "c1ccc(F)cc1", "c1cc[nH]c1", "c1ccncc1", "c1ccoc1", "C1=CC=CC=C1", "c1ccc2ccccc2c1", "c1ccc2[nH]ccc2c1"], ["", "C", ".C"]],
     # multi-fragment and charged
     [["[Na+]", "[NH4+]", "C"], ".", ["[Cl-]", "[O-]C", "OC(=O)[O-]"], ["", ".O"]],
+    # three to five components of different sizes (component order must be kept)
+    [["CCCC", "CCCCCC", "C", "CC(=O)[O-]"], ".", ["CCCC", "CCC", "C", "CC(=O)[O-]"], ".", ["C", "CC", "[Ca+2]"], ["", ".C", ".N.O"]],
 ]
 
 
